@@ -73,18 +73,23 @@ Proof.
     assert (Step : sm_step m (ECReq id) = Some (mkSM (id :: sm_owed m) (sm_wait m) (sm_used m) (sm_closed m) false)).
     { unfold sm_step. rewrite Je, Jc, NM. reflexivity. }
     destruct c; simpl in H;
-      try (destruct (find_c k (s_cs s)); [discriminate|]);
+      repeat match type of H with
+             | match find_c ?k ?l with _ => _ end = _ => destruct (find_c k l) as [cc|] eqn:?
+             | (if ?b then _ else _) = _ => destruct b eqn:?
+             end; try discriminate;
       inversion H; subst; clear H; eexists; (split; [exact Step|]);
-      constructor; simpl; rewrite ?Jo, ?Cl; auto; rewrite ?zlen_cons; try lia.
-    destruct (ctx_live k (s_cs s)); rewrite ?zlen_set_c; lia.
+      constructor; simpl; rewrite ?Jo, ?Cl; auto; rewrite ?zlen_cons, ?zlen_set_c; try lia.
   - (* respond *)
     destruct (find_h id (s_hs s)) as [h|] eqn:F; [|discriminate].
     assert (M : zmem id (sm_owed m) = true) by (rewrite Jo; eapply find_h_mem; eauto).
     assert (Step : sm_step m (ESResp id) = Some (mkSM (zremove id (sm_owed m)) (sm_wait m) (sm_used m) (sm_closed m) false)).
     { unfold sm_step. rewrite Je, M. reflexivity. }
     pose proof (remove_h_len id (s_hs s) h F) as RL.
-    destruct (h_kind h) as [|k|k [|]|k [|]|k [|]]; destruct (h_st h); try discriminate;
-      repeat match type of H with (if ?c then _ else _) = _ => destruct c eqn:? end; try discriminate;
+    destruct (h_kind h) as [|k|k [|]|k [|]|k [|]|k]; destruct (h_st h); try discriminate;
+      repeat match type of H with
+             | (if ?c then _ else _) = _ => destruct c eqn:?
+             | match find_c ?k ?l with _ => _ end = _ => destruct (find_c k l) eqn:?
+             end; try discriminate;
       inversion H; subst; clear H; eexists; (split; [exact Step|]);
       constructor; simpl; rewrite ?Jo, ?remove_h_ids; auto; rewrite ?zlen_cons; try lia.
     (* dispose of a live context: the entry disappears *)
@@ -112,13 +117,13 @@ Proof.
     + constructor; simpl; rewrite ?Jo, ?set_h_ids, ?Jw, ?Cl; auto; rewrite ?zlen_set_h; try lia.
   - (* build start *)
     destruct (find_h id (s_hs s)) as [h|] eqn:F; [|discriminate].
-    destruct (h_kind h) as [|k|k [|]|k [|]|k [|]]; destruct (h_st h); try discriminate.
+    destruct (h_kind h) as [|k|k [|]|k [|]|k [|]|k]; destruct (h_st h); try discriminate.
     destruct (ctx_building k (s_cs s)); [discriminate|].
     inversion H; subst; clear H. exists m. split; auto.
     constructor; unfold upd_s; cbn [s_closed s_exited s_keep s_next s_cbs s_hs s_cs]; rewrite ?Jo, ?set_h_ids, ?zlen_set_h, ?zlen_set_c; auto; congruence.
   - (* build end *)
     destruct (find_h id (s_hs s)) as [h|] eqn:F; [|discriminate].
-    destruct (h_kind h) as [|k|k [|]|k [|]|k [|]]; destruct (h_st h); try discriminate.
+    destruct (h_kind h) as [|k|k [|]|k [|]|k [|]|k]; destruct (h_st h); try discriminate.
     inversion H; subst; clear H. exists m. split; auto.
     constructor; unfold upd_s; cbn [s_closed s_exited s_keep s_next s_cbs s_hs s_cs]; rewrite ?Jo, ?set_h_ids, ?zlen_set_h, ?zlen_set_c; auto; congruence.
   - (* close *)
@@ -272,36 +277,58 @@ Proof.
   destruct (ctx_building k (s_cs s)); [discriminate|]. auto.
 Qed.
 
-(* the full statement is false of the faithful model: witnesses *)
+(* a cancel or dispose that arrived while a dispose of the context was pending
+   (respondAfterDispose) answers only after that dispose has finished: the
+   context is gone, hence no build of it is running *)
+Theorem after_dispose_waits : forall s id h k s' oe,
+  find_h id (s_hs s) = Some h -> h_kind h = HAfterDispose k ->
+  sexec s (SRespond id) = Some (s', oe) ->
+  find_c k (s_cs s) = None /\ ctx_building k (s_cs s) = false.
+Proof.
+  intros s id h k s' oe F K H. unfold sexec in H. destruct (s_exited s); [discriminate|].
+  rewrite F, K in H. destruct (h_st h); try discriminate.
+  unfold ctx_building. destruct (find_c k (s_cs s)); [discriminate|]. auto.
+Qed.
+
+(* what the synchronous part decides: a cancel/dispose is answered "at once"
+   (kind H... k false) only if the service has no entry for the context at all *)
+Lemma recv_kind : forall s id c s' oe, sexec s (SRecv id c) = Some (s', oe) ->
+  exists h, find_h id (s_hs s') = Some h /\
+    (forall k, (h_kind h = HCancel k false \/ h_kind h = HDispose k false) -> find_c k (s_cs s) = None).
+Proof.
+  intros s id c s' oe H. unfold sexec in H. destruct (s_exited s); [discriminate|].
+  destruct (s_closed s); [discriminate|]. simpl in H.
+  destruct (find_h id (s_hs s)); [discriminate|].
+  destruct c; simpl in H;
+    repeat match type of H with
+           | match find_c ?k ?l with _ => _ end = _ => destruct (find_c k l) as [cc|] eqn:?
+           | (if ?b then _ else _) = _ => destruct b eqn:?
+           end; try discriminate; inversion H; subst; clear H; simpl; rewrite Z.eqb_refl;
+    eexists; (split; [reflexivity|]); simpl; intros k0 [E|E];
+    repeat match type of E with context [match find_c ?k ?l with _ => _ end] => destruct (find_c k l) as [cc|] eqn:? end;
+    repeat match type of E with context [if ?b then _ else _] => destruct b end;
+    try discriminate; inversion E; subst; auto.
+Qed.
+
+(* the full statement, for all interleavings: the response to a cancel or
+   dispose request whose context was known to the service when the request
+   arrived is sent only when no build of that context is running *)
+Theorem cancel_dispose_answered_after_build_end : forall s id h k s' oe,
+  find_h id (s_hs s) = Some h ->
+  (h_kind h = HCancel k true \/ h_kind h = HDispose k true \/ h_kind h = HAfterDispose k) ->
+  sexec s (SRespond id) = Some (s', oe) -> ctx_building k (s_cs s) = false.
+Proof.
+  intros s id h k s' oe F [K|[K|K]] H.
+  - eapply live_cancel_waits; eauto.
+  - eapply first_dispose_waits; eauto.
+  - eapply after_dispose_waits; eauto.
+Qed.
+
+(* the former witnesses are no longer runs of the model: the second dispose
+   (the cancel after dispose) cannot answer while the build is running *)
 Definition wit_second_dispose : list sact :=
   [SRecv 1 (CCreate 7); SRespond 1; SRecv 2 (CRebuild 7); SBuildStart 2; SCallback 2;
    SRecv 3 (CDispose 7); SRecv 4 (CDispose 7)].
 Definition wit_cancel_after_dispose : list sact :=
   [SRecv 1 (CCreate 7); SRespond 1; SRecv 2 (CRebuild 7); SBuildStart 2; SCallback 2;
    SRecv 3 (CDispose 7); SRecv 4 (CCancel 7)].
-
-Theorem dispose_answers_after_build_end_refuted :
-  exists acts s tr s' oe h k live,
-    srun sst0 acts = Some (s, tr) /\ find_h 4 (s_hs s) = Some h /\ h_kind h = HDispose k live /\
-    sexec s (SRespond 4) = Some (s', oe) /\ oe = Some (ESResp 4) /\ ctx_building k (s_cs s) = true.
-Proof.
-  destruct (srun sst0 wit_second_dispose) as [[s tr]|] eqn:R; [|vm_compute in R; discriminate].
-  destruct (sexec s (SRespond 4)) as [[s' oe]|] eqn:E.
-  - exists wit_second_dispose, s, tr, s', oe.
-    vm_compute in R. inversion R; subst. vm_compute in E. inversion E; subst.
-    eexists. exists 7. exists false. repeat split; vm_compute; reflexivity.
-  - vm_compute in R. inversion R; subst. vm_compute in E. discriminate.
-Qed.
-
-Theorem cancel_answers_after_build_end_refuted :
-  exists acts s tr s' oe h k live,
-    srun sst0 acts = Some (s, tr) /\ find_h 4 (s_hs s) = Some h /\ h_kind h = HCancel k live /\
-    sexec s (SRespond 4) = Some (s', oe) /\ oe = Some (ESResp 4) /\ ctx_building k (s_cs s) = true.
-Proof.
-  destruct (srun sst0 wit_cancel_after_dispose) as [[s tr]|] eqn:R; [|vm_compute in R; discriminate].
-  destruct (sexec s (SRespond 4)) as [[s' oe]|] eqn:E.
-  - exists wit_cancel_after_dispose, s, tr, s', oe.
-    vm_compute in R. inversion R; subst. vm_compute in E. inversion E; subst.
-    eexists. exists 7. exists false. repeat split; vm_compute; reflexivity.
-  - vm_compute in R. inversion R; subst. vm_compute in E. discriminate.
-Qed.
